@@ -27,7 +27,7 @@ RULE = ('seeded histories: 0-6 structural C10/C11 operations on identity-encoded
         'previously written handle, BytesIO} x {hdf5, pkl} x overwrite on/off, with injected write faults (ENOSPC after n bytes, '
         'EIO on k-th write) and crash snapshots right after save() returns; load by path, handle or from the crash snapshot. '
         'Non-trivial = at least one file-system call; distinct = distinct (object kind, producer, target, file type, overwrite, '
-        'fault, load route) signatures.')
+        'fault, load route) signatures, counted per file operation (several per run).')
 ASSUMPTIONS = ['the real file system of the sandbox holds the simulated directory; crash snapshot = bytes visible through a second '
                'descriptor at the instant save() returns (what a kill -9 of the process would leave)',
                'after a *reported* write failure the file content is not judged (the property does not speak about torn files)',
